@@ -344,6 +344,10 @@ class AssociationRequester(Association):
     def _request(self, local_ae, remote_ae, users_pdu=None):
         """Requests an association with a remote AE and waits for association
         response."""
+        if self.context_def_list and max(self.context_def_list) > 255:
+            # presentation context ID is an odd number between 1 and 255
+            raise exceptions.AssociationError(
+                'Too many presentation contexts: at most 128 SOP Classes can be proposed')
         max_pdu_length_par = userdataitems.MaximumLengthSubItem(self.max_pdu_length)
         implementation_uid = userdataitems.ImplementationClassUIDSubItem(IMPLEMENTATION_UID)
         user_information = [max_pdu_length_par, implementation_uid] + users_pdu \
